@@ -120,6 +120,51 @@ def random_pattern(rng):
     return s + tail
 
 
+def _flat(ast):
+    out = []
+    for n in ast:
+        if n["t"] == "opt":
+            out += _flat(n["body"])
+        else:
+            out.append(n)
+    return out
+
+
+def _firsts(seq):
+    """the tokens a text matching `seq` can start with (optional groups may be skipped); second value: can `seq` match the empty text"""
+    out = []
+    for n in seq:
+        if n["t"] == "opt":
+            out += _firsts(n["body"])[0]
+            continue
+        out.append(n)
+        return out, False
+    return out, True
+
+
+def _pairs(seq, follow):
+    """(token, possible next token) pairs; `follow` = the nodes after this sequence in the enclosing pattern"""
+    out = []
+    for i, n in enumerate(seq):
+        rest = list(seq[i + 1:]) + list(follow)
+        if n["t"] == "opt":
+            out += _pairs(n["body"], rest)
+        else:
+            f, _ = _firsts(rest)
+            out += [(n, x) for x in f]
+    return out
+
+
+def ambiguous_juxtaposition(pattern):
+    """a variable-width numeric part that can be followed directly by another numeric part (optional groups in between may be skipped):
+    the decomposition of a version text is then not unique (`BUILD[-TAG][NUM]`, `YYMM`) - outside the pattern grammar of the properties"""
+    ast = glue.parse_pattern(pattern)
+    for a, b in _pairs(ast, []):
+        if a["t"] == "part" and b["t"] == "part" and a["p"] not in ("TAG", "PYTAG") and b["p"] not in ("TAG", "PYTAG") and a["p"] not in FIXED_WIDTH:
+            return True
+    return False
+
+
 def corpus(rng, n_random, include_doc=True):
     pats = []
     seen = set()
@@ -128,7 +173,8 @@ def corpus(rng, n_random, include_doc=True):
         if p in seen:
             return
         try:
-            glue.parse_pattern(p)
+            if ambiguous_juxtaposition(p):
+                return
         except glue.OutsideGrammar:
             return
         seen.add(p)
